@@ -3,15 +3,15 @@ from __future__ import annotations
 
 import json
 
-from . import fam_expr, fam_iter, fam_pairs, fam_sql
+from . import fam_expr, fam_iter, fam_multi, fam_pairs, fam_sql
 from .core import Part, open_findings
 
 REGISTRY = {
-    "C06": {"families": [fam_iter.run, fam_sql.run], "assumptions": ["leaf declarations exact / loose / zero-lower / unbounded, always consistent with the actual row count"]},
-    "C14": {"families": [fam_iter.run, fam_sql.run], "assumptions": []},
+    "C06": {"families": [fam_iter.run, fam_sql.run, fam_multi.run], "assumptions": ["leaf declarations exact / loose / zero-lower / unbounded, always consistent with the actual row count"]},
+    "C14": {"families": [fam_iter.run, fam_sql.run, fam_multi.run], "assumptions": []},
     "C16": {"families": [fam_iter.run, fam_sql.run], "assumptions": ["the executor used in the replay really executes the relation in its engine"]},
     "C18": {"families": [fam_iter.run], "assumptions": ["leaf payloads are harness RowIterable subclasses counting __iter__ calls (public extension point)"]},
-    "C20": {"families": [fam_iter.run, fam_sql.run], "assumptions": ["when a request is ill-formed in two ways (engine and columns) either documented class is accepted"]},
+    "C20": {"families": [fam_iter.run, fam_sql.run, fam_multi.run], "assumptions": ["when a request is ill-formed in two ways (engine and columns) either documented class is accepted"]},
     "C12": {"families": [fam_expr.run], "assumptions": [
         "SQLite 3.40 (the only database available offline) stands for 'a database'",
         "rows range over a,b in -3..4 (exhaustive part) ; deeper random expressions use the same rows"]},
@@ -26,6 +26,10 @@ REGISTRY = {
     "C08": {"families": [fam_sql.run, fam_iter.run], "assumptions": ["each occurrence of a leaf table in one query gets its own alias (as a user must do for self-joins)"]},
     "C11": {"families": [fam_sql.run], "assumptions": ["list equality is demanded exactly when TLC's OrdTree says the outermost level carries a sort that totally orders its rows"]},
     "C17": {"families": [fam_sql.run], "assumptions": []},
+    "C03": {"families": [fam_multi.run], "assumptions": [
+        "content is compared after processing with a real SQLite<->iteration Processor; list equality when TLC's ListDet holds, bag equality when BagDet holds",
+        "with transfer=True and a fully successful backtrack the documented behaviour (no transfer added) is accepted"]},
+    "C15": {"families": [fam_multi.run], "assumptions": []},
     "C04": {"families": [fam_pairs.run], "assumptions": [
         "targets: every row list of length <=3 over a,b in 0..1 (85 targets); slices: one-column targets of length 0..6",
         "tag reuse (a calculated tag that already exists upstream) is outside the documented contract and not generated"]},
